@@ -109,7 +109,7 @@ func SimpleCommands(t *rapid.T) []Command {
 	var out []Command
 	for i := 0; i < n; i++ {
 		c := Command{
-			Name:   rapid.SampledFrom([]string{"show", "configure", "*", "ping"}).Draw(t, "cmd_name"),
+			Name: rapid.SampledFrom([]string{"show", "configure", "*", "ping"}).Draw(t, "cmd_name"),
 			// 0 = the entry has no action key, 7 = a number that is neither permit nor deny
 			Action: rapid.SampledFrom([]int{ActionPermit, ActionPermit, ActionDeny, ActionPermit, ActionDeny, 0, 7}).Draw(t, "cmd_action"),
 		}
